@@ -1240,6 +1240,28 @@ def b_midifile(tier, rnd):
             "cases": cases}
 
 
+@battery("midifile_blank")
+def b_midifile_blank(tier, rnd):
+    from mingus.midi.midi_file_out import MidiFile
+    from mingus.midi.midi_track import MidiTrack
+    from mingus.containers.note import Note
+    import itertools
+
+    def track(kind):
+        t = MidiTrack()
+        if kind == "reset":
+            t.reset()
+        elif kind == "note":
+            t.play_Note(Note("C", 4))
+        return t
+    cases = [(MidiFile.__new__(MidiFile),)]
+    for k in range(0, 4):
+        for kinds in itertools.product(["reset", "fresh", "note"], repeat=k):
+            cases.append((MidiFile.__new__(MidiFile), [track(x) for x in kinds]))
+    return {"rule": "MidiFile.__init__ on a blank instance: tracks omitted, or lists of 0..3 tracks each reset, fresh or with "
+                    "one note (all 40 combinations)", "cases": cases}
+
+
 @battery("two_bytes")
 def b_two_bytes(tier, rnd):
     his = list(range(256))
